@@ -178,7 +178,20 @@ fn run_node(ctx: &mut Ctx, api: &Api, words: &[u32]) -> usize {
         Out::Ret(x) => {
             let g = int_chk(ctx, "random result", &x);
             ctx.outcome_digits(g.mag.digits());
-            if g != want {
+            // The property pins the stream function of gen_biguint and of bounded sampling; for
+            // gen_bigint it only requires the range, canonical form and agreement with RandomBits,
+            // so a different (but deterministic) sign rule is reported, not flagged.
+            let pinned = !matches!(api, Api::GenBigint(_) | Api::RandomBitsI(_));
+            if g != want && !pinned {
+                ctx.count("gen_bigint_differs_from_reference_sign_rule", 1);
+                if let Api::GenBigint(n) = api {
+                    let mut r2 = StreamRng { words, pos: 0 };
+                    let again: Result<BigInt, String> = guard(|| RandomBits::new(*n).sample(&mut r2));
+                    if again.as_ref().map(int_of) != Ok(g.clone()) {
+                        ctx.viol(format!("RandomBits!=gen_bigint {:?} stream={:x?}", api, words), "RandomBits does not match gen_bigint on the same stream", args(), g.to_hex(), format!("{:?}", again.map(|x| int_of(&x).to_hex())));
+                    }
+                }
+            } else if g != want {
                 ctx.viol(format!("{:?} stream={:x?}", api, words), "result is not the specified function of the RNG stream", args(), want.to_hex(), g.to_hex());
             } else if consumed != m.pos {
                 ctx.viol(format!("words-consumed {:?} stream={:x?}", api, words), "number of RNG words consumed differs from the specification", args(), format!("{}", m.pos), format!("{}", consumed));
@@ -451,7 +464,10 @@ fn body(ctx: &mut Ctx) {
                 match got {
                     Out::Ret(x) => {
                         let g = int_of(&x);
-                        if x.to_string() != exp || g != model || m.pos != words.len() {
+                        if signed && (x.to_string() != exp || g != model) {
+                            // value stability of gen_bigint is the repository's CI convention, not part of the property
+                            ctx.count("chacha_gen_bigint_vector_differs", 1);
+                        } else if x.to_string() != exp || g != model || m.pos != words.len() {
                             ctx.viol(format!("chacha {} bits={}", if signed { "gen_bigint" } else { "gen_biguint" }, n), "ChaCha value-stability vector / model / real generator disagree", vec![], format!("{} (model {})", exp, model.to_hex()), format!("{}", x));
                         }
                     }
